@@ -24,7 +24,7 @@ HARNESSES = [(("thdm", "plain", ["thdm.cpp"]), {})]
 
 TOL = 1e-10
 ZETAS = [-100.0, -1.0, 0.0, 1.0, 100.0]
-MVALS = [10.0, 125.0, 126.0, 400.0, 1e4]
+MVALS = [0.0, 10.0, 125.0, 126.0, 400.0, 1e4]      # incl. the boundary mh = 0 and all mh == mH
 PAIRS = [(a, b) for a in MVALS for b in MVALS if a <= b]
 
 DIMS_M0 = ["mm", "mA", "mHp", "sba", "tb", "l6", "l7", "m122", "yt", "ckm",
@@ -242,10 +242,13 @@ def cmp_angle(acc, tag, sba_in, S, mh, mH, R):
             "sin(beta-alpha): input %r reported as %r (cos %r), mh=%r mH=%r (err %%(err).3g > %%(tol).3g)" % (sba_in, sba, cba, mh, mH))
 
 
-def cmp_masses(acc, tag, ref, S, R, what):
+def cmp_masses(acc, tag, ref, S, m2max, what):
+    """squared masses carry an absolute error proportional to m^2_max: |m_rep^2 - m^2| <= 2e-10 m^2_max,
+    i.e. relative 1e-10 x m^2_max/m^2 on the mass itself (the statement's m^2_max/m^2_min for the lightest
+    state, tighter for the heavier ones, and meaningful at the boundary m = 0)"""
     for nm, idx, r in (("mh", T.MHH0, ref[0]), ("mH", T.MHH1, ref[1]), ("mA", T.MAH1, ref[2]), ("mHp", T.MHM1, ref[3])):
-        acc.cmp("mass", "%s:mass:%s" % (tag, nm), abs(S[idx] - r), TOL * R * r,
-                nm + " " + what + " %r, reported %r (err %%(err).3g > %%(tol).3g)" % (r, S[idx]))
+        acc.cmp("mass", "%s:mass:%s" % (tag, nm), abs(S[idx] * S[idx] - r * r), 2 * TOL * m2max,
+                nm + " " + what + " %r, reported %r (err on m^2 %%(err).3g > %%(tol).3g)" % (r, S[idx]))
 
 
 def mass_input_from(S):
@@ -277,7 +280,7 @@ def evaluate_points(cases, history=True):
     c3 = [with_basis(cases[alive[k]], "M", mass_input_from(r2[k].S)) for k in idx3]
     r3 = dict(zip(idx3, T.run_cases(c3, "S"))) if c3 else {}
 
-    out = dict(n=len(cases), thrown=0, illcond=0, fails=[], worst={}, keys=set(), exc={},
+    out = dict(n=len(cases), thrown=0, illcond=0, massless_tachyon=0, fails=[], worst={}, keys=set(), exc={},
                passes=len(cases) * (2 if history and len(cases) > 1 else 1) + len(c2) + len(c3), smsets=set())
     for i, what in hist:
         # replay data: the case plus a case of the same process with a different SM input (or simply another one)
@@ -291,7 +294,18 @@ def evaluate_points(cases, history=True):
         r = r1[i]
         if r.exc:
             out["thrown"] += 1
-            out["exc"][r.exc[0]] = out["exc"].get(r.exc[0], 0) + 1
+            cls = r.exc[0]
+            out["exc"][c["basis"] + ":" + cls] = out["exc"].get(c["basis"] + ":" + cls, 0) + 1
+            # every lattice point is inside the documented domain (0 <= mh <= mH, mA, mH+ > 0, |sba| <= 1, tan(beta) > 0,
+            # types 1..6): the only legitimate refusal is a tachyonic spectrum of a gauge-basis point, or the rounding
+            # of the exactly massless state mh = 0 of a mass-basis point
+            if cls == "EPhysicalProblem" and c["basis"] == "G":
+                pass
+            elif cls == "EPhysicalProblem" and c["basis"] == "M" and c["p"][0] == 0:
+                out["massless_tachyon"] += 1
+            else:
+                out["fails"].append(("%s:valid-input-refused:%s" % (c["basis"], cls),
+                                     "input inside the documented domain is refused: %s %s; %s" % (cls, r.exc[1], brief(c)), {"case": c}))
             continue
         acc = Acc()
         S = r.S
@@ -301,9 +315,10 @@ def evaluate_points(cases, history=True):
         if c["basis"] == "M":
             mh, mH, mA, mHp, sba_in, l6, l7, tb, m122 = p
             m2 = [x * x for x in (mh, mH, mA, mHp, S[T.SM_MW], S[T.SM_MZ])]
-            m2max, m2min = max(m2), min(m2)
+            m2max, m2min = max(m2), min(x for x in m2 if x > 0)      # ratio over the massive states (mh = 0 is in the domain)
+            massless = mh == 0
             R = check_common(acc, c, S, "M", m2max, m2min)
-            cmp_masses(acc, "M", (mh, mH, mA, mHp), S, R, "input")
+            cmp_masses(acc, "M", (mh, mH, mA, mHp), S, m2max, "input")
             cmp_angle(acc, "M", sba_in, S, mh, mH, R)
             acc.cmp("stored", "M:tan_beta", abs(S[T.TB] - tb), 1e-13 * tb, "tan(beta) input %r reported %r" % (tb, S[T.TB]))
             lam = S[T.LAM]
@@ -312,21 +327,27 @@ def evaluate_points(cases, history=True):
             acc.cmp("stored", "M:m122", abs(S[T.M122] - m122), 0.0, "m12^2 input %r reported %r" % (m122, S[T.M122]))
             # gauge basis from the reported lambda_1..7: same spectrum
             if S2 is None:
-                acc.fails.append(("M->G:throws", "model rebuilt from its reported lambda_1..7 is rejected: %s %s" % r2[k].exc))
+                if massless and r2[k].exc[0] == "EPhysicalProblem":
+                    out["massless_tachyon"] += 1     # massless state: eigenvalue 0 -/+ rounding flagged as tachyon
+                else:
+                    acc.fails.append(("M->G:throws", "model rebuilt from its reported lambda_1..7 is rejected: %s %s" % r2[k].exc))
             else:
                 check_common(acc, c, S2, "M->G", m2max, m2min)
-                cmp_masses(acc, "M->G", (S[T.MHH0], S[T.MHH1], S[T.MAH1], S[T.MHM1]), S2, R, "of the mass-basis model")
+                cmp_masses(acc, "M->G", (S[T.MHH0], S[T.MHH1], S[T.MAH1], S[T.MHM1]), S2, m2max, "of the mass-basis model")
                 cmp_angle(acc, "M->G", S[T.SBA], S2, mh, mH, R)
                 if k in r3:
                     if r3[k].exc:
-                        acc.fails.append(("M->G->M:throws", "mass-basis model rebuilt from the gauge-basis model is rejected: %s %s" % r3[k].exc))
+                        if massless and r3[k].exc[0] == "EPhysicalProblem":
+                            out["massless_tachyon"] += 1
+                        else:
+                            acc.fails.append(("M->G->M:throws", "mass-basis model rebuilt from the gauge-basis model is rejected: %s %s" % r3[k].exc))
                     else:
                         S3 = r3[k].S
                         sc = lam_tols(mh, mH, mA, mHp, tb, l6, l7, m122, S[T.V], S2[T.CBA])
                         for j in range(5):
                             acc.cmp("lambda", "M->G->M:lambda%d" % (j + 1), abs(S3[T.LAM][j] - S2[T.LAM][j]), sc[j],
                                     "lambda_%d of the gauge-basis model %r, after the trip through the mass basis %r (err %%(err).3g > %%(tol).3g)" % (j + 1, S2[T.LAM][j], S3[T.LAM][j]))
-                        cmp_masses(acc, "M->G->M", (S2[T.MHH0], S2[T.MHH1], S2[T.MAH1], S2[T.MHM1]), S3, R, "of the gauge-basis model")
+                        cmp_masses(acc, "M->G->M", (S2[T.MHH0], S2[T.MHH1], S2[T.MAH1], S2[T.MHM1]), S3, m2max, "of the gauge-basis model")
                         cmp_angle(acc, "M->G->M", S2[T.SBA], S3, mh, mH, R)
             degenerate = mh == mH
         else:
@@ -349,7 +370,7 @@ def evaluate_points(cases, history=True):
                 acc.fails.append(("G->M:throws", "mass-basis model rebuilt from the reported spectrum is rejected: %s %s" % r2[k].exc))
             else:
                 check_common(acc, c, S2, "G->M", m2max, m2min)
-                cmp_masses(acc, "G->M", (S[T.MHH0], S[T.MHH1], S[T.MAH1], S[T.MHM1]), S2, R, "of the gauge-basis model")
+                cmp_masses(acc, "G->M", (S[T.MHH0], S[T.MHH1], S[T.MAH1], S[T.MHM1]), S2, m2max, "of the gauge-basis model")
                 cmp_angle(acc, "G->M", S[T.SBA], S2, mh, mH, R)
                 sc = lam_tols(mh, mH, S[T.MAH1], S[T.MHM1], tb, lam_in[5], lam_in[6], m122, S[T.V], S[T.CBA])
                 for j in range(5):
@@ -441,13 +462,13 @@ def run(ctx):
     # strided chunks: every harness process sees all parts of the lattice, i.e. models with
     # different SM inputs in varying order; each chunk is also run in reversed order (bitwise equal)
     chunks = T.strided_chunks(items, 400)
-    tot = dict(n=0, thrown=0, illcond=0, passes=0)
+    tot = dict(n=0, thrown=0, illcond=0, massless_tachyon=0, passes=0)
     worst, exc = {}, {}
     min_smsets = None
     with mp.Pool(min(16, os.cpu_count() or 4)) as pool:
         for ch, o in zip(chunks, pool.imap(evaluate_compact, chunks)):
             min_smsets = len(o["smsets"]) if min_smsets is None else min(min_smsets, len(o["smsets"]))
-            for k in ("n", "thrown", "illcond", "passes"):
+            for k in ("n", "thrown", "illcond", "massless_tachyon", "passes"):
                 tot[k] += o[k]
             for k, v in o["worst"].items():
                 worst[k] = max(worst.get(k, 0.0), v)
@@ -469,11 +490,15 @@ def run(ctx):
     surv = 1.0 - (tot["thrown"] + tot["illcond"]) / max(1, tot["n"])
     print("[C08] lattice points %d (constructions %d), rejected by the constructor %d (%s), ill-conditioned (massless state) %d, checked %.1f%%"
           % (tot["n"], tot["passes"], tot["thrown"], exc, tot["illcond"], 100 * surv))
+    print("[C08] refusals: gauge-basis tachyons %d (legitimate); mass-basis mh = 0 flagged tachyonic by rounding (pass 1-3) %d; every other refusal is a violation"
+          % (exc.get("G:EPhysicalProblem", 0), tot["massless_tachyon"]))
+    ctx.note("mass_basis_mh=0_refused_as_tachyon_by_rounding", tot["massless_tachyon"])
     print("[C08] worst error/tolerance per clause: %s" % {k: float("%.3g" % v) for k, v in sorted(worst.items())})
     if surv < 0.5:
         ctx.cap("less than half of the lattice accepted by the constructor")
     ctx.assumptions += [
-        "tolerance on masses 1e-10 x m^2_max/m^2_min (relative), m^2 over {mh,mH,mA,mH+,MW,MZ}; on the angle the same times (mH^2+mh^2)/(mH^2-mh^2)",
+        "tolerance on squared masses 2e-10 x m^2_max absolute (= 1e-10 x m^2_max/m^2 relative on the mass), m^2 over {mh,mH,mA,mH+,MW,MZ}; on the angle 1e-10 x m^2_max/m^2_min(>0) x (mH^2+mh^2)/(mH^2-mh^2)",
+        "a constructor exception is accepted only as EPhysicalProblem on a gauge-basis point (tachyon) or on a mass-basis point with mh = 0 (rounding of the massless state); any other refusal of a lattice point is a violation",
         "angle clause skipped at exactly mh == mH; (sin,cos) ~ (-sin,-cos) identified when |cos(beta-alpha)| < 1e-7",
         "lambda_1..5 after the round trip compared with tolerance 1e-10 x sum of |terms| of the closed-form inversion",
         "SM input (MW, MZ, alpha_em(MZ), alpha_s, nine fermion masses, m_hSM) is a lattice dimension; the 'SM input' a model is compared with is what was sent (echo of model.get_sm() checked exactly)",
@@ -484,7 +509,7 @@ def run(ctx):
         "each accepted point: mass basis -> gauge basis from reported lambda_i -> mass basis from reported spectrum (gauge lattice: gauge -> mass); "
         "distinct = (basis, Yukawa type, CKM, sign sin(beta-alpha), tan(beta) <,=,> 1, quadrant of alpha_h, mh==mH, mA<mh, mH+<mh, SM input non-default)" % (dm, dg),
         {"lattice_points": tot["n"], "constructions": tot["passes"], "rejected_by_constructor": tot["thrown"],
-         "rejected_classes": exc, "skipped_massless_state": tot["illcond"], "fraction_checked": round(surv, 4),
+         "rejected_classes": exc, "mass_basis_mh0_rounding_tachyons": tot["massless_tachyon"], "skipped_massless_state": tot["illcond"], "fraction_checked": round(surv, 4),
          "worst_err_over_tol": {k: float("%.3g" % v) for k, v in sorted(worst.items())}})
 
 
@@ -494,9 +519,6 @@ def replay(ctx, path):
     c = d["data"]["case"]
     cases = [d["data"]["other"], c] if d["data"].get("other") else [c]
     o = evaluate_points(cases)
-    if o["thrown"] == len(cases):
-        print("replay: constructor rejects the point now: %s" % o["exc"])
-        return 0
     hit = [f for f in o["fails"] if f[0] == d["key"]] or o["fails"]
     for key, what, _ in hit:
         print("replay: [%s] %s" % (key, what))
